@@ -957,3 +957,59 @@ pub fn clean_build(ctx : &Ctx, out : &mut Out)
         }
     }
 }
+
+/// `./check Cnn --replay file`: the check driver extracts the `(history ...)` case of a replay file into a
+/// text file and passes its path; the case is re-run with all monitors — serially, and, when the replay
+/// recorded a schedule (env VERIF_REPLAY_CHOICES = comma-separated choice indices), with its last
+/// operation under exactly that schedule, compared with the serial outcome.
+pub fn replay(ctx : &Ctx, out : &mut Out)
+{
+    let path = match &ctx.replay { Some(p) => p.clone(), None => return };
+    let text = std::fs::read_to_string(&path).unwrap_or(String::new());
+    let choices : Option<Vec<usize>> = std::env::var("VERIF_REPLAY_CHOICES").ok().map(|s| s.split(',').filter_map(|x| x.trim().parse::<usize>().ok()).collect());
+    for line in text.lines()
+    {
+        if let Some((coarse, t0, ops)) = world::parse_history_case(line)
+        {
+            let (obs, serial) = run_fixed(out, "replay", coarse, t0, &ops, true, &Policy::Serial, true);
+            emit_case(out, coarse, t0, &ops, &obs, true);
+            out.count("replayed-serial");
+            if let Some(ch) = &choices
+            {
+                if ops.is_empty() { continue; }
+                // prefix serially, last op under the recorded schedule
+                let driver = Driver::new(if coarse { ClockMode::Coarse } else { ClockMode::Fine }, t0);
+                let mut tr = Tracker::new("replay", true);
+                let (prep, last) = ops.split_at(ops.len() - 1);
+                for op in prep
+                {
+                    match op
+                    {
+                        Op::Build(_) | Op::Clean(_) => { driver.invoke(op, Policy::Serial); driver.tick(); },
+                        _ =>
+                        {
+                            if let Op::Write(p, c) = op { if p == RULES_PATH { tr.scenario = scenario::scenario_from_text(&String::from_utf8_lossy(c)).filter(|s| s.well_formed()); if let Some(sc) = &tr.scenario { tr.ever_targets.extend(sc.all_targets()); } } }
+                            driver.user(op); driver.tick();
+                        },
+                    }
+                }
+                let inv = driver.invoke(&last[0], Policy::Replay(ch.clone()));
+                out.count("replayed-schedule");
+                monitor_invocation(out, &mut tr, &inv, &last[0], coarse, t0, &ops);
+                if let Some((_, verdict, files)) = serial.last()
+                {
+                    if inv.verdict.show() != *verdict
+                    {
+                        out.violation("C06:verdict-depends-on-schedule", format!("the recorded schedule gives {} but the serial schedule gives {}", inv.verdict.show(), verdict), replay_json("replay", coarse, t0, &ops));
+                    }
+                    else if disk_files(&inv.after) != *files
+                    {
+                        out.violation("C06:content-depends-on-schedule", "the recorded schedule leaves different workspace contents than the serial one".to_string(), replay_json("replay", coarse, t0, &ops));
+                    }
+                }
+                if inv.deadlock { out.violation("C05:deadlock", "all threads blocked".to_string(), replay_json("replay", coarse, t0, &ops)); }
+                if let Verdict::Panic(m) = &inv.verdict { out.violation("C05:panic", format!("panicked: {}", m), replay_json("replay", coarse, t0, &ops)); }
+            }
+        }
+    }
+}
